@@ -176,18 +176,44 @@ func RRepCases(c *core.Ctx) {
 			return
 		}
 		arms[name] = map[int64]bool{}
-		ast.Inspect(fd.Body, func(n ast.Node) bool {
-			if sw, ok := n.(*ast.SwitchStmt); ok {
-				for _, st := range sw.Body.List {
-					for _, e := range st.(*ast.CaseClause).List {
-						if v, ok := core.ConstInt(root.TypesInfo, e); ok {
-							arms[name][v] = true
+		// constants the function distinguishes: case labels and ==/!= comparisons,
+		// in its own body and in the helpers of the package it hands the work to
+		// (an arm factored out into a shared function is still an arm)
+		seen := map[*ast.FuncDecl]bool{}
+		var collect func(d *ast.FuncDecl, depth int)
+		collect = func(d *ast.FuncDecl, depth int) {
+			if d == nil || d.Body == nil || seen[d] || depth > 3 {
+				return
+			}
+			seen[d] = true
+			ast.Inspect(d.Body, func(n ast.Node) bool {
+				switch x := n.(type) {
+				case *ast.SwitchStmt:
+					for _, st := range x.Body.List {
+						for _, e := range st.(*ast.CaseClause).List {
+							if v, ok := core.ConstInt(root.TypesInfo, e); ok {
+								arms[name][v] = true
+							}
 						}
 					}
+				case *ast.BinaryExpr:
+					if x.Op == token.EQL || x.Op == token.NEQ {
+						for _, e := range []ast.Expr{x.X, x.Y} {
+							if v, ok := core.ConstInt(root.TypesInfo, e); ok && v < 0 {
+								arms[name][v] = true
+							}
+						}
+					}
+				case *ast.CallExpr:
+					if fn := core.Callee(root.TypesInfo, x); fn != nil && fn.Pkg() == root.Types {
+						cd, _ := p.DeclOf(fn)
+						collect(cd, depth+1)
+					}
 				}
-			}
-			return true
-		})
+				return true
+			})
+		}
+		collect(fd, 0)
 		var vals []int64
 		for v := range produced {
 			vals = append(vals, v)
